@@ -39,7 +39,7 @@ import (
 // All executions must give the same block hash, roots, receipts, interchain / timeout /
 // multi-tx metadata and persisted state.
 
-var c01Ops = []string{"xfer", "reqs", "rcpts", "reqT", "empty", "o2m", "o2mr", "wreq", "freezeA", "regC", "votes", "mixed", "xvm", "svcupd", "svcupdP", "strategy", "dapp", "logoutA", "updA", "reqL", "reqrc"}
+var c01Ops = []string{"xfer", "reqs", "rcpts", "reqT", "empty", "o2m", "o2mr", "wreq", "freezeA", "regC", "votes", "mixed", "xvm", "svcupd", "svcupdP", "strategy", "dapp", "logoutA", "updA", "reqL", "reqrc", "o2mF"}
 
 type c01Inst struct {
 	rule     string
@@ -206,6 +206,15 @@ func (in *c01Inst) build(op string) ([]pb.Transaction, bool) {
 			fix.IBTPTx(fix.KA, w.N.Next(fix.KA), &pb.IBTP{From: a1, To: b2, Index: g.Vals[0], TimeoutHeight: 2, Group: g}, fix.GoodProof),
 			fix.IBTPTx(fix.KA, w.N.Next(fix.KA), &pb.IBTP{From: a1, To: ww, Index: g.Vals[1], TimeoutHeight: 2, Group: g}, fix.GoodProof),
 			fix.IBTPTx(fix.KA, w.N.Next(fix.KA), &pb.IBTP{From: a1, To: bu, Index: g.Vals[2], TimeoutHeight: 2, Group: g}, fix.GoodProof),
+		}, true
+	case "o2mF":
+		// a one-to-many transaction of A:s3 whose THIRD child is refused at begin (B:s2 blacklists A:s3)
+		// after two children have begun: the begin-failure is announced for every child begun so far
+		g := &pb.StringUint64Map{Keys: []string{ww, bu, b2}, Vals: []uint64{in.nextReq(a3, ww), in.nextReq(a3, bu), in.nextReq(a3, b2)}}
+		return []pb.Transaction{
+			fix.IBTPTx(fix.KA, w.N.Next(fix.KA), &pb.IBTP{From: a3, To: ww, Index: g.Vals[0], TimeoutHeight: 2, Group: g}, fix.GoodProof),
+			fix.IBTPTx(fix.KA, w.N.Next(fix.KA), &pb.IBTP{From: a3, To: bu, Index: g.Vals[1], TimeoutHeight: 2, Group: g}, fix.GoodProof),
+			fix.IBTPTx(fix.KA, w.N.Next(fix.KA), &pb.IBTP{From: a3, To: b2, Index: g.Vals[2], TimeoutHeight: 2, Group: g}, fix.GoodProof),
 		}, true
 	case "o2mr":
 		if in.group == nil {
